@@ -211,6 +211,13 @@ func ReadRespBodyStream(resp *protocol.Response, r network.Reader,
 	}
 	bodyBuf := resp.BodyBuffer()
 	bodyBuf.Reset()
+	if resp.Header.ContentLength() == -2 {
+		// a body that ends where the connection ends is not read ahead (reading it ahead
+		// means reading all of it): the stream reads it from the connection
+		bodyStream := ext.AcquireBodyStream(bodyBuf, r, resp.Header.Trailer(), -2)
+		resp.ConstructBodyStream(bodyBuf, convertClientRespStream(bodyStream, closeCallBack))
+		return nil
+	}
 	bodyBuf.B, err = ext.ReadBodyWithStreaming(r, resp.Header.ContentLength(), maxBodySize, bodyBuf.B)
 	if err != nil {
 		if errors.Is(err, errs.ErrBodyTooLarge) {
